@@ -226,7 +226,7 @@ def srcConsistent (s : SV) (src : List (String × Rat)) : Bool :=
 /-- the value updates for which **alias_tracks** is claimed: `setParameterValue` of any
 parameter; the source-iterating bulk setters when the source names independent parameters only
 (a source naming an aliased parameter writes it directly, after its source: see
-`Props/C03.lean`, `direct_write_desyncs_witness`); `setAllParametersValues` (which writes every
+`Props/C03.lean`, `chain_needs_sync_witness`); `setAllParametersValues` (which writes every
 parameter directly) when the source is consistent with the links -/
 def Op.tracked (s : SV) : Op → Bool
   | .setv .. => true
@@ -262,7 +262,7 @@ def checkStep (b : View) (op : Op) (out : Out) (a : View) : Option String :=
          else if sb != sa then some "refuse_unchanged"
          else none)
       else if out == .err .notfound || out == .err .bpp then some "alias_refused_wrongly"
-      else if out.isErr then none
+      else if out.isErr then (if sb != sa then some "alias_raise_unchanged" else none)   -- ConstraintException
       else if !aliasOk p1 p2 sb sa then some "alias_effect"
       else none
     | _, _ => none
@@ -289,6 +289,22 @@ def checkStep (b : View) (op : Op) (out : Out) (a : View) : Option String :=
     match b.get k, a.get k with
     | some sb, some sa => if out.isErr then none else if !namespaceOk pre sb sa then some "namespace_preserves" else none
     | _, _ => none
+  | _ => none
+
+/-- a recorded defect of the unchanged library (findings/C03.json, `C03-bulk-namespace`), judged apart
+from `checkStep` (whose clauses are theorems of the model): under a non-empty namespace the map form
+looks the names of the map up *with* the namespace (cpp:138, 158) and hands them to the pair form,
+which prepends the namespace again (cpp:81): a map that names only existing parameters is answered
+`ParameterNotFoundException`.  The model transcribes it (`C03.bulk_namespace_witness`). -/
+def checkKnown (b : View) (op : Op) (out : Out) : Option String :=
+  match op with
+  | .bulk k es =>
+    match b.get k with
+    | some sb =>
+      if sb.pre != "" && !es.isEmpty &&
+          es.all (fun e => sb.params.any (fun p => p.name == e.1) && sb.params.any (fun p => p.name == e.2)) &&
+          out == .err .notfound then some "bulk_namespace" else none
+    | none => none
   | _ => none
 
 end Bpp.Alias
